@@ -922,21 +922,27 @@ class SyncObj(object):
                 if prevEntries[0][2] != prevLogTerm:
                     self.__sendNextNodeIdx(node, nextNodeIdx = prevLogIdx, success = False, reset=True)
                     return
-                if len(prevEntries) > 1:
+                # Entries that are already in the log (same index and term) are kept,
+                # existing entries are removed only if they conflict with the new ones.
+                matched = 0
+                while matched < len(newEntries) and matched + 1 < len(prevEntries) and \
+                        prevEntries[matched + 1][2] == newEntries[matched][2]:
+                    matched += 1
+                if matched < len(newEntries) and matched + 1 < len(prevEntries):
                     # rollback cluster changes
                     if self.__conf.dynamicMembershipChange:
-                        for entry in reversed(prevEntries[1:]):
+                        for entry in reversed(prevEntries[matched + 1:]):
                             clusterChangeRequest = self.__parseChangeClusterRequest(entry[0])
                             if clusterChangeRequest is not None:
                                 self.__doChangeCluster(clusterChangeRequest, reverse=True)
 
-                    self.__deleteEntriesFrom(prevLogIdx + 1)
-                for entry in newEntries:
+                    self.__deleteEntriesFrom(prevLogIdx + matched + 1)
+                for entry in newEntries[matched:]:
                     self.__raftLog.add(*entry)
 
                 # apply cluster changes
                 if self.__conf.dynamicMembershipChange:
-                    for entry in newEntries:
+                    for entry in newEntries[matched:]:
                         clusterChangeRequest = self.__parseChangeClusterRequest(entry[0])
                         if clusterChangeRequest is not None:
                             self.__doChangeCluster(clusterChangeRequest)
